@@ -59,7 +59,11 @@ claim('C06', 'sort-key extraction from closure MIR + dominance/loop rules on the
       'Partial: the ready list is sorted by exactly (priority, due time, declaration index); scheduling precedes the task loop, tasks precede background programs, each ready entry and each program/FB of a task runs once; a task is queued at most once per cycle; edge memory is written on every iteration path from this cycle\'s sample, period memory only under the periodic condition and set to now (no replay), overruns saturate; background set agrees between its two computations. The due-ness arithmetic (>=, elapsed) is not decided.',
       _TB, 'DESIGN.md section 4 / C06')
 
+claim('C13', 'call-graph purity of salsa tracked bodies + field write sets and must-pass rules on the file-set mutators + persistent-container iteration table',
+      'Partial: all 8 tracked query bodies reach no clock/env/fs/RNG and receive only &dyn salsa::Database; Database.sources is written only by set_source_text/remove_source_text, each of which bumps the revision and updates the salsa-side table and synced_revision on every changing path; the project file list is sorted by FileId before it becomes a salsa input; every iteration over a persistent hash container is sorted, order-insensitive or a reviewed exposure; no RandomState iteration in trust_hir. Equality of incremental and fresh answers itself is not decided.',
+      _TB, 'DESIGN.md section 4 / C13')
+
 _PENDING = 'check not built yet in this commit (work in progress; see DESIGN.md section 10 for the build order)'
-for _p in ['C02','C03','C04','C13','C16']:
+for _p in ['C02','C03','C04','C16']:
     na(_p, _PENDING)
 na('C15', 'formatting token-sequence preservation and idempotence are equalities between values computed by string manipulation; no shape-of-code fact is a necessary condition that a realistic breaking edit would violate (DESIGN.md section 5)')
